@@ -563,6 +563,13 @@ def io_summaries():
     def opaque_clone(ex, st, fn, argv):
         return [(st, value_copy(deref(ex, st, argv[0])))]
 
+    @reg(r'^amq_protocol::protocol::(\w+)::\w+::get_class_id$')
+    def class_id(ex, st, fn, argv):
+        c = re.match(r'^amq_protocol::protocol::(\w+)::', fn).group(1)
+        if c not in ex.prog.class_ids:
+            raise Unsupported('class id of ' + c)
+        return [(st, Int(ex.prog.class_ids[c], 16, False))]
+
     return S + bytes_summaries() + gen_summaries() + channel_summaries()
 
 
@@ -700,3 +707,75 @@ def time_summaries():
         return [(st, mk_option())]
 
     return S
+
+
+# ------------------------------------------------------------------------------------------ client-side API world
+def cell_summaries():
+    """RefCell / Cell plumbing (single-threaded, non-reentrant use: borrows always succeed)"""
+    S = []
+
+    def reg(pat):
+        def deco(f):
+            S.append((pat, f))
+            return f
+        return deco
+
+    @reg(r'^RefCell::<.*>::new$|^(std::cell::)?Cell::<.*>::new$')
+    def rc_new(ex, st, fn, argv):
+        return [(st, Agg({0: argv[0]}, 'RefCell' if 'RefCell' in fn else 'Cell'))]
+
+    @reg(r'^RefCell::<.*>::(borrow_mut|borrow)$')
+    def rc_borrow(ex, st, fn, argv):
+        r = argv[0]
+        return [(st, Agg({0: Ref(r.cell, r.path + (('field', 0, ''),))}, 'RefGuard'))]
+
+    @reg(r'^<(std::cell::)?Ref(Mut)?<.*> as Deref(Mut)?>::deref(_mut)?$')
+    def rc_deref(ex, st, fn, argv):
+        g = deref(ex, st, argv[0])
+        return [(st, g.fields[0])]
+
+    @reg(r'^(std::cell::)?Cell::<.*>::get$')
+    def c_get(ex, st, fn, argv):
+        c = deref(ex, st, argv[0])
+        return [(st, value_copy(c.fields[0]))]
+
+    @reg(r'^(std::cell::)?Cell::<.*>::set$')
+    def c_set(ex, st, fn, argv):
+        r = argv[0]
+        ex.write_path(st, r.cell, r.path + (('field', 0, ''),), argv[1])
+        return [(st, Unit())]
+
+    return S
+
+
+def mk_channel(prog, st, name='ch', replies=(), frame_max=None, chan_id=None):
+    """public Channel value wired to a capturing message queue and a pre-loaded reply queue. -> (Cell, info)"""
+    tx = Chan(name + '.tx', None, True)
+    rx = Chan(name + '.reply', 2, True)
+    for r in replies:
+        rx.queue.append(r)
+    cid = sym(name + '.id', z3.BitVecSort(16)) if chan_id is None else chan_id
+    fm = sym(name + '.payload_max', BV64) if frame_max is None else frame_max
+    ioh = mk_struct(prog, 'IoLoopHandle', channel_id=Int(cid, 16), buf=Agg({0: ByteVec(name + '.buf')}, 'OutputBuffer'), tx=SenderVal(tx), rx=ReceiverVal(rx))
+    ch = mk_struct(prog, 'ChannelHandle', handle=ioh, frame_max=Int(fm, 64))
+    channel = mk_struct(prog, 'channel::Channel', inner=Agg({0: ch}, 'RefCell'), closed=Bool(False))
+    cell = Cell(channel, name)
+    info = {'tx': tx, 'rx': rx, 'id': cid, 'payload_max': fm}
+    st.roots[name] = cell
+    st.roots[name + '.info'] = info
+    return cell, info
+
+
+def sent_frames(prog, info):
+    """flatten the captured IoLoopMessages of a channel into [(message variant, frame item)]"""
+    MV = prog.types.variants('IoLoopMessage')
+    out = []
+    for msg in info['tx'].queue:
+        vn = MV[msg.disc]
+        if vn in ('Send', 'ConnectionClose'):
+            bv = msg.payloads[msg.disc].fields[0].fields[0]
+            for it in bv.items:
+                out.append((vn, it, bv))
+        else:
+            out.append((vn, None, None))
+    return out
